@@ -39,10 +39,25 @@ type ConnSpec struct {
 	EndNote  string // wait for this note before End
 	Sync     bool   // wait for the answers to everything sent so far before sending the next segment
 	After    int    // >0: this connection is opened by the thread of connection number After (1-based) once that one has ended
+	ReadNote string // wait for this note after sending and before reading anything
+	// ClearBehind: a request sent in the clear in the same write as the StartTLS request, directly behind it
+	// (request index 90); RFC 4511 4.14.1 forbids it, an attacker on the path can do it
+	ClearBehind string
 	Name     string
 }
 
 func msgID(ci, k int) int64 { return int64((ci+1)*1000 + k) }
+
+// opMsgID: the message ID the client uses for request k of connection ci ("unbind0" is an Unbind with
+// message ID 0, which RFC 4511 reserves for unsolicited notifications but which a client can still send).
+func opMsgID(op string, ci, k int) int64 {
+	if op == "unbind0" {
+		return 0
+	}
+	return msgID(ci, k)
+}
+
+func isUnbind(op string) bool { return op == "unbind" || op == "unbind0" }
 
 func (sp *Spec) scn() *Scn {
 	return &Scn{Name: sp.Name, Props: sp.Props, Quick: sp.Quick, Thor: sp.Thor, MaxPts: sp.MaxPts, Body: sp.body, Check: sp.check, Spec: sp}
@@ -76,7 +91,7 @@ func (sp *Spec) body() {
 	}
 	for ci := range sp.Conns {
 		for k, h := range sp.Conns[ci].H {
-			w.PerMsg[msgID(ci, k)] = h
+			w.PerMsg[opMsgID(sp.Conns[ci].Ops[k-1], ci, k)] = h
 		}
 	}
 	done, nthreads := 0, 0
@@ -132,7 +147,7 @@ var curSpec *Spec
 func needsStartTLS(sp *Spec) bool {
 	for _, c := range sp.Conns {
 		for _, o := range c.Ops {
-			if o == "starttls" {
+			if o == "starttls" || o == "starttls-silent" {
 				return true
 			}
 		}
@@ -184,7 +199,11 @@ func runClient(w *World, ci int, name string, cs *ConnSpec) {
 			if cs.Read != "none" {
 				cl.ReadFrames(expectSoFar)
 			}
-			_ = cl.Send(reqBytes(op, msgID(ci, k)))
+			if cs.ClearBehind != "" {
+				_ = cl.Send(append(reqBytes(op, msgID(ci, k)), reqBytes(cs.ClearBehind, msgID(ci, 90))...))
+			} else {
+				_ = cl.Send(reqBytes(op, msgID(ci, k)))
+			}
 			expectSoFar++
 			if cs.Read == "none" {
 				cl.ReadFrames(len(cl.Frames) + 1)
@@ -201,7 +220,22 @@ func runClient(w *World, ci int, name string, cs *ConnSpec) {
 			vrt.Atomic(func() { w.Notes[name+"-upgraded"]++ })
 			continue
 		}
-		pending = append(pending, reqBytes(op, msgID(ci, k))...)
+		if op == "starttls-silent" {
+			// the StartTLS request is sent and answered, but the client never starts the handshake
+			flush()
+			if cs.Read != "none" {
+				cl.ReadFrames(expectSoFar)
+			}
+			_ = cl.Send(reqBytes("starttls", msgID(ci, k)))
+			cl.ReadFrames(len(cl.Frames) + 1)
+			vrt.Atomic(func() { w.Notes[name+"-starttls-response"]++ })
+			continue
+		}
+		if op == "unbind0" {
+			pending = append(pending, reqBytes("unbind", 0)...)
+		} else {
+			pending = append(pending, reqBytes(op, msgID(ci, k))...)
+		}
 		expectSoFar += framesFor(cs.H[k])
 		inSeg++
 		if segs != nil && si < len(segs) && inSeg == segs[si] {
@@ -214,6 +248,9 @@ func runClient(w *World, ci int, name string, cs *ConnSpec) {
 		}
 	}
 	flush()
+	if cs.ReadNote != "" {
+		vrt.WaitUntil(cs.ReadNote, func() bool { return w.Notes[cs.ReadNote] > 0 })
+	}
 	switch cs.Read {
 	case "":
 		if cs.Expect > 0 {
@@ -256,7 +293,7 @@ func (sp *Spec) realOK() bool {
 		return false
 	}
 	for _, c := range sp.Conns {
-		if c.RecvBuf > 0 || c.IdleFor > 0 || c.End == "stay" || c.End == "half" {
+		if c.RecvBuf > 0 || c.IdleFor > 0 || c.End == "stay" || c.End == "half" || c.ReadNote != "" {
 			return false
 		}
 	}
